@@ -547,6 +547,19 @@ struct tcp_run
 				nat[a.first] = plus == std::string::npos ? a.second.nat : a.second.nat.substr(plus + 1);
 			}
 			c["nat"] = nat;
+			{
+				// the configured routes, for the end-to-end delay bound (C09)
+				json::object rt, ra, net;
+				rt["tpk"] = std::int64_t(w.tick_ns > 0 && 1000000 % w.tick_ns == 0 ? 1000000 / w.tick_ns : 0); // ticks per ms
+				net["lat"] = std::int64_t(w.has_net ? w.net_lat : 0); net["bw"] = w.has_net ? w.net_bw : 0;
+				for (auto const& a : w.addrs)
+				{
+					json::object o; o["ol"] = a.second.out_lat; o["il"] = a.second.in_lat; o["ob"] = a.second.out_bw; o["ib"] = a.second.in_bw;
+					ra[a.first] = o;
+				}
+				rt["net"] = net; rt["a"] = ra;
+				c["rt"] = rt;
+			}
 			rec.emit(c);
 		}
 		if (prog.find("fault") != prog.end())
